@@ -345,8 +345,13 @@ pub fn generate(s: &mut Session, thorough: bool) -> bool {
                         (bad.iter().enumerate().map(|(i, f)| format!("{i}:1:{}:{}", f.run, f.t0)).collect(), "BadRunNumber")
                     }
                     1 => {
+                        // two files with the same initial timestamp; their final timestamp equals
+                        // the initial one so that no other check (the "missing file" test) can
+                        // be what refuses the run
                         let k = 1 + rng.below(bad.len() as u64 - 1) as usize;
                         bad[k].t0 = bad[0].t0;
+                        bad[0].t1 = bad[0].t0;
+                        bad[k].t1 = bad[0].t0;
                         (bad.iter().enumerate().map(|(i, f)| format!("{i}:1:{}:{}", f.run, f.t0)).collect(), "DuplicateInitialTimestamp")
                     }
                     _ => {
@@ -368,14 +373,55 @@ pub fn generate(s: &mut Session, thorough: bool) -> bool {
                     }
                     paths.push(p);
                 }
+                // every order of the arguments must be refused (a check that looks at neighbours
+                // on the command line, or at the first file only, depends on the order)
                 let mut why = None;
-                for bin in ["alpha-g-vertices", "alpha-g-trg-scalers"] {
-                    let res = run_binary(bin, &paths, &d2.join("out"), 2);
-                    if res.status_ok || res.csv.is_some() {
-                        why = Some(format!("{bin} did not refuse a run with {expect_err} [run {}]", describe(&bad)));
+                let mut observed = String::new();
+                let mut orders: Vec<Vec<usize>> = Vec::new();
+                {
+                    let n = paths.len();
+                    let mut idx: Vec<usize> = (0..n).collect();
+                    // Heap's algorithm, iterative
+                    let mut c = vec![0usize; n];
+                    orders.push(idx.clone());
+                    let mut i = 0;
+                    while i < n {
+                        if c[i] < i {
+                            if i % 2 == 0 { idx.swap(0, i) } else { idx.swap(c[i], i) }
+                            orders.push(idx.clone());
+                            c[i] += 1;
+                            i = 0;
+                        } else {
+                            c[i] = 0;
+                            i += 1;
+                        }
                     }
                 }
-                s.push_oracle("refusal", format!("sortfiles {}", heads.join(" ")), format!("err {expect_err}"), why);
+                for (oi, order) in orders.iter().enumerate() {
+                    let args: Vec<PathBuf> = order.iter().map(|&i| paths[i].clone()).collect();
+                    // both binaries on the first order, alternating afterwards
+                    let bins: &[&str] = if oi == 0 { &["alpha-g-vertices", "alpha-g-trg-scalers"] } else if oi % 2 == 0 { &["alpha-g-vertices"] } else { &["alpha-g-trg-scalers"] };
+                    for bin in bins {
+                        let res = run_binary(bin, &args, &d2.join("out"), 2);
+                        if res.status_ok || res.csv.is_some() {
+                            why = Some(format!("{bin} did not refuse a run with {expect_err} given in argument order {order:?} [run {}]", describe(&bad)));
+                        }
+                        if observed.is_empty() {
+                            observed = if res.stderr.contains("bad run number") {
+                                "err BadRunNumber".into()
+                            } else if res.stderr.contains("duplicate initial timestamp") {
+                                "err DuplicateInitialTimestamp".into()
+                            } else if res.stderr.contains("unknown file extension") {
+                                "err UnknownExtension".into()
+                            } else if res.status_ok {
+                                "ok".into()
+                            } else {
+                                format!("failed {}", res.stderr.chars().take(100).collect::<String>().replace(' ', "_"))
+                            };
+                        }
+                    }
+                }
+                s.push_oracle("refusal", format!("sortfiles {}", heads.join(" ")), observed, why);
                 let _ = std::fs::remove_dir_all(&d2);
             }
         }
